@@ -1084,3 +1084,21 @@ def c09(tier, seed):
                     "steps": steps})
         n += 1
     return out
+
+
+# ----------------------------------------------------------------------------- C10
+
+def c10(tier, seed):
+    out = []
+    n = 0
+    identities = ["pinned14", "days15", "expired", "future", "p384", "ed25519"]
+    trusts = ["hash_own", "hash_many_own", "hash_other", "hash_none", "native", "none"]
+    for ident in identities:
+        for trust in trusts:
+            for role in (("client", "server") if tier == "thorough" else ("client",)):
+                out.append({"scn": "C10-%04d" % n, "role": role, "peer": "wt",
+                            "cfg": {"server_identity": ident, "client_trust": trust},
+                            "meta": {"prop": "C10", "identity": ident, "trust": trust},
+                            "steps": []})
+                n += 1
+    return out
